@@ -133,6 +133,11 @@ def main():
     }
     for pid in sorted(checks):
         tech, text, note, ref = checks[pid]
+        text += (" [This summary describes the check as first built; twenty rounds of seeded changes have since added spaces "
+                 "(listed per property in DESIGN.md sections 5 and 8). The exact spaces, alphabets and bounds of a run are in "
+                 "coverage.rule / coverage.bounds of the evidence file, which the check writes itself. Every space enumerated by "
+                 "the engine is also run under a second configuration in which all registry classes are replaced by user "
+                 "subclasses that override nothing (DESIGN.md 2.3).]")
         m["checks"].append({
             "property_id": pid,
             "quick_cmd": f"./check {pid} --tier quick",
